@@ -23,7 +23,7 @@ from props import c19
 PID = 'C08'
 TRANSLATORS = ['err_classes', 'load_order', 'xsd_table']
 LEAN_PROPS = ['Pyc.Props.C08', 'Pyc.Props.C08b']
-LEAN_MODULES = ['Pyc.Model.Errors', 'Pyc.Model.DocLoad']
+LEAN_MODULES = ['Pyc.Model.Errors', 'Pyc.Model.DocLoad', 'Pyc.Model.Validate']
 META = dict(
     level_text=('Proof: Pyc/Props/C08.lean proves for the loader\'s error discipline - every library loader a fold in which each per-item DaeError goes through '
                 'handleError - that an error is always recorded and re-raised iff no masked class is a superclass, that with all raised classes masked a library '
@@ -167,6 +167,17 @@ def schema_required(data, site):
     return bool(verdict)
 
 
+PRIMITIVES = ('triangles', 'tristrips', 'trifans', 'lines', 'linestrips', 'polylist', 'polygons')
+
+
+def prim_input_site(data, site):
+    """is the damaged attribute the `source` of an <input> of a primitive?"""
+    root = ET.fromstring(data)
+    parent = dict((c, p) for p in root.iter() for c in p)
+    el = list(root.iter())[site[1]]
+    return site[2] == 'source' and faults.local(el) == 'input' and el in parent and faults.local(parent[el]) in PRIMITIVES
+
+
 def check_fault(data, site, base):
     """base = (doc, closure, by_key snapshot, ids) of the undamaged load. Returns (result or None, info)"""
     kind = site[0]
@@ -182,6 +193,10 @@ def check_fault(data, site, base):
         # "needed data isn't there" (DaeIncompleteError), the definition of something referred to is gone (DaeBrokenRefError) or the only
         # supported variant is gone (DaeUnsupportedError) - but nothing is "corrupted": the documented meaning of DaeMalformedError
         allowed = allowed - {'DaeMalformedError'}
+    if kind == 'nohash' and prim_input_site(data, site):
+        # the input table of a primitive tells a malformed reference ("Incorrect source id") from a dangling one ("not found"):
+        # Pyc.Validate.resolve, C09.bad_reference_is_malformed; the two fault kinds of the property have two documented kinds here
+        allowed = {'DaeMalformedError'}
     if strict not in allowed:
         return ('wrong-kind:%s:%s' % (kind, strict), 'fault %s raises %s, expected one of %s' % (describe(data, site), strict, sorted(allowed))), info
     if kind == 'truncated':
@@ -202,10 +217,12 @@ def check_fault(data, site, base):
         res = containment(data, site, owner, d, base)
         if res:
             return res, info
-    other = [c for c in CLASSES if c != strict and not issubclass(cls(strict), cls(c))][0]
-    out, _ = load(bad, ignore=[cls(other)])
-    if out != strict:
-        return ('unrelated-mask:%s' % kind, 'fault %s raises %s strictly but %s when the unrelated %s is ignored' % (describe(data, site), strict, out, other)), info
+    # the four documented kinds are siblings below DaeError: each of the other three is unrelated to the one raised
+    # (by the DOCUMENTED hierarchy, not by issubclass on the code under test — a class that was quietly made a base of another is the fault)
+    for other in [c for c in CLASSES if c != strict]:
+        out, _ = load(bad, ignore=[cls(other)])
+        if out != strict:
+            return ('unrelated-mask:%s' % kind, 'fault %s raises %s strictly but %s when the unrelated %s is ignored' % (describe(data, site), strict, out, other)), info
     return None, info
 
 
@@ -298,9 +315,10 @@ def graph_masks(seed):
             return ('graph:not-ignorable:' + out.split(':')[0], '%s: with %s ignored the load ends with %s' % (what, name, out))
         if strict != 'ok' and 'DaeBrokenRefError' not in [kname(e) for e in d.errors]:
             return ('graph:not-recorded', '%s: strict load raises DaeBrokenRefError but the masked load records %s' % (what, [kname(e) for e in d.errors]))
-    out, _ = load(data, ignore=[cls('DaeMalformedError')])
-    if out != strict:
-        return ('graph:unrelated-mask', '%s: strict outcome %s, with the unrelated DaeMalformedError ignored %s' % (what, strict, out))
+    for other in ('DaeMalformedError', 'DaeIncompleteError', 'DaeUnsupportedError'):
+        out, _ = load(data, ignore=[cls(other)])
+        if out != strict:
+            return ('graph:unrelated-mask', '%s: strict outcome %s, with the unrelated %s ignored %s' % (what, strict, other, out))
     return None
 
 
@@ -512,6 +530,35 @@ def run(ctx):
         if res and res[0] not in reported:
             reported.add(res[0])
             ctx.violation('c08:' + res[0], res[1], dict(kind='mask-history', seed=mseed))
+    # malformed vs dangling references in the input table of a primitive (Pyc.Validate.resolve; C09.bad_reference_is_malformed / dangling_reference_is_broken)
+    from props import c09
+    rl, rwant, rcases = [], [], []
+    for i in range(ctx.n(200, 3000)):
+        rr = random.Random('c08r/%s/%d' % (ctx.seed, i))
+        case = c09.gen_case(rr)[0]
+        if c09.truth(case)[0] or not c09.run_impl(case)[0].startswith('ok'):
+            continue
+        how = rr.choice(['nohash', 'dangling'])
+        k = rr.randrange(len(case['inputs']))
+        if how == 'dangling' and case['inputs'][k][2] == 'v' and case['route'] == 'L':
+            how = 'nohash'
+        case['inputs'][k][2] = 'x' if how == 'nohash' else len(case['sources']) + 3
+        got = c09.run_impl(case)[0]
+        want = 'err:DaeMalformedError' if how == 'nohash' else 'err:DaeBrokenRefError'
+        ctx.count('refkind:' + how)
+        ctx.case(dict(kind='refkind', how=how, line=c09.line_of(case)[:200]))
+        if got != want and 'refkind:' + how not in reported:
+            reported.add('refkind:' + how)
+            ctx.violation('c08:refkind:%s:%s' % (how, got), 'a primitive whose input %d has %s (%s route; every other reference resolves) ends with %s, the documented kind is %s. Case: %s'
+                          % (k, "a source text without '#'" if how == 'nohash' else 'a reference to a source that does not exist', 'loader' if case['route'] == 'L' else 'constructor',
+                             got, want[4:], c09.line_of(case)), dict(kind='refkind', case=case, want=want))
+        rl.append(c09.line_of(case)); rwant.append(got); rcases.append(case)
+    if ctx.lean_ok and rl:
+        for l, g, m in zip(rl, rwant, ctx.driver('C09', rl)):
+            if m.split(' ')[0] != g.split(' ')[0] and 'corr:refkind' not in reported:
+                reported.add('corr:refkind')
+                ctx.violation('corr:refkind', 'Pyc.Validate.construct and the real primitive disagree on %r: model %r, implementation %r' % (l, m[:80], g[:80]),
+                              dict(kind='refkind-corr', line=l), found_input=False)
     # class table and ignoreErrors correspondence
     from collada import common
     names = [n for n in dir(common) if n.startswith('Dae') and n.endswith('Error')]
@@ -529,6 +576,11 @@ def run(ctx):
 
 
 def replay(ctx, rep):
+    if rep.get('kind') == 'refkind':
+        from props import c09
+        got = c09.run_impl(rep['case'])[0]
+        print('  %s -> %s (documented: %s)' % (c09.line_of(rep['case']), got, rep['want']))
+        return got != rep['want']
     if rep.get('kind') == 'fault':
         base = make_base(rep['seed'], rep['base'])
         data, info0 = base
